@@ -159,6 +159,12 @@ func VH_C17_ArrayCopy() {
 	}
 	vhAssert(cp.SlabID() != a.SlabID(), "copy has a fresh identifier")
 	vhAssert(cp.Address() == vhAddr(2), "copy has the requested owner")
+	// the copy is a stored value of its own
+	rcp, rerr := NewArrayWithRootID(storage, cp.SlabID())
+	vhAssert(rerr == nil, "copy reopens by its root identifier")
+	if rerr == nil {
+		vhAssert(rcp.Count() == a.Count(), "reopened copy count")
+	}
 	verr := VerifyArray(cp, vhAddr(2), vTypeInfo{id: 42}, vhTic, vhHip, true)
 	vhAssert(verr == nil, "copy is structurally valid")
 	vhAssert(cp.Count() == a.Count(), "copy count")
@@ -304,6 +310,12 @@ func VH_C17_MapCopy() {
 	vhAssert(cp.SlabID() != m.SlabID(), "copy has a fresh identifier")
 	cmodel := append([]vhKV{}, model...)
 	vhCheckMap(cp, vhAddr(2), cmodel, "copy")
+	// the copy is a stored value of its own
+	rcp, rerr := NewMapWithRootID(storage, cp.SlabID(), b2)
+	vhAssert(rerr == nil, "copy reopens by its root identifier")
+	if rerr == nil {
+		vhAssert(rcp.Count() == uint64(len(cmodel)), "reopened copy count")
+	}
 	// mutate one of them with a symbolic operation, then both must match their own model
 	target, tmodel, taddr := m, &model, addr
 	if vhChoose("mutate", 2) == 1 {
